@@ -28,6 +28,8 @@ pub fn base_alphabet(thorough: bool) -> Vec<WCall> {
         t(NItem::Leaf(ID_MU, Val::U(300)), WOpt::Width(2)),
         t(NItem::Full(ID_M, vec![NItem::Leaf(ID_MU, Val::U(2)), NItem::Full(ID_N, vec![NItem::Leaf(ID_NU, Val::U(4))])]), WOpt::Default),
         WCall::Flush,
+        // 125 bytes in one call (valid under Root/M): with Root started at width 1 the outer content becomes 127
+        t(NItem::Full(ID_N, vec![NItem::Full(ID_K, vec![NItem::Full(ID_L, vec![NItem::Leaf(ID_LB, Val::B(vec![0x3c; 107]))])])]), WOpt::Default),
     ];
     if thorough {
         a.push(t(NItem::Leaf(ID_NU, Val::U(7)), WOpt::Default));
